@@ -406,4 +406,58 @@ theorem closed_system_accepted_was_sent (acts : List Act) :
 Finished makes the server re-send its final flight -/
 example : (after wCrypto wLoc false none wOps).ctx.lastFlight.isSome = true := by decide
 
+/-! ## the handshake deadline (closed system with clocks) -/
+
+open RtcModel.DtlsFlights in
+theorem converge_before_deadline_gen (D : Nat) (faults rest : List TAct) (τ0 : TSys) (h0 : τ0.σ ∈ reach0)
+    (hc : τ0.kc + ticksC faults + 3 < D) (hs : τ0.ks + ticksS faults + 3 < D) :
+    (tFairRound W0 (tFairRound W0 (τ0.run W0 D faults))).kc + 1 < D ∧
+    (tFairRound W0 (tFairRound W0 (τ0.run W0 D faults))).ks + 1 < D ∧
+    bothConnected (tFairRound W0 (tFairRound W0 (τ0.run W0 D faults))).σ = true ∧
+    bothConnected ((tFairRound W0 (tFairRound W0 (τ0.run W0 D faults))).run W0 D rest).σ = true := by
+  obtain ⟨h1, h2, h3⟩ := TSys.run_before_deadline W0 D faults τ0 (by omega) (by omega)
+  generalize τ0.run W0 D faults = τ at h1 h2 h3 ⊢
+  have hmem : τ.σ ∈ reach0 := by rw [h1]; exact closed_run reach0_closed _ _ h0
+  have hgood := reach0_good
+  rw [List.all_eq_true] at hgood
+  have e : (tFairRound W0 (tFairRound W0 τ)).σ = fairRound W0 (fairRound W0 τ.σ) := by simp only [tFairRound]
+  have ekc : (tFairRound W0 (tFairRound W0 τ)).kc = τ.kc + 1 + 1 := by simp only [tFairRound]
+  have eks : (tFairRound W0 (tFairRound W0 τ)).ks = τ.ks + 1 + 1 := by simp only [tFairRound]
+  have hb : bothConnected (tFairRound W0 (tFairRound W0 τ)).σ = true := by rw [e]; exact hgood _ hmem
+  have hmem2 : (tFairRound W0 (tFairRound W0 τ)).σ ∈ reach0 := by
+    rw [e]; exact fairRound_mem reach0_closed (fairRound_mem reach0_closed hmem)
+  refine ⟨?_, ?_, hb, connected_trun D rest _ hmem2 hb⟩
+  · rw [ekc]; omega
+  · rw [eks]; omega
+
+open RtcModel.DtlsFlights in
+/-- **"before the handshake deadline"** (closed system with clocks, free crypto).  Each endpoint has its
+own retransmission timer and its own deadline, `deadlineTicks = 30` periods after its start (from the
+generated constants: 30 s timeout, first tick after 1 s, period 1 s); a deadline action may fire as soon as
+29 ticks of that endpoint were processed (it races with the 30th), and does whatever `onDeadline` does
+(Handshaking → Failed).  Take any fault schedule `faults` — loss, duplication, reordering, delay, ticks, and
+deadline actions wherever the adversary likes — during which each endpoint's timer ticked at most
+`deadlineTicks - 4 = 26` times.  If the network then delivers everything for two periods, both endpoints
+are Connected, no deadline was enabled up to that point, and **whatever happens afterwards** (`rest`: any
+network behaviour, both deadlines firing) they stay Connected — in particular neither ever ends Failed.
+(No deadline action is interleaved inside the two fair rounds: none is enabled there, first two conjuncts.) -/
+theorem converge_before_deadline (faults rest : List TAct)
+    (hc : ticksC faults + 3 < deadlineTicks) (hs : ticksS faults + 3 < deadlineTicks) :
+    let τ2 := tFairRound W0 (tFairRound W0 ((TSys.mk (Sys.init W0) 0 0).run W0 deadlineTicks faults))
+    τ2.kc + 1 < deadlineTicks ∧ τ2.ks + 1 < deadlineTicks ∧
+    bothConnected τ2.σ = true ∧ bothConnected (τ2.run W0 deadlineTicks rest).σ = true :=
+  converge_before_deadline_gen deadlineTicks faults rest (TSys.mk (Sys.init W0) 0 0) reach0_init
+    (by show 0 + _ + 3 < _; omega) (by show 0 + _ + 3 < _; omega)
+
+open RtcModel.DtlsFlights in
+/-- "Otherwise … Failed", the other half: if the network delivers nothing at all, each endpoint keeps
+retransmitting and is Failed — dead — once its deadline fires; the deadline does nothing before the
+endpoint's 29th tick. -/
+theorem silent_network_fails_at_deadline :
+    let ticks := (List.replicate (deadlineTicks - 1) [TAct.net .tickC, TAct.net .tickS]).flatten
+    let early := (TSys.mk (Sys.init W0) 0 0).run W0 deadlineTicks (ticks.take 56 ++ [.deadlineC, .deadlineS])
+    let τ := (TSys.mk (Sys.init W0) 0 0).run W0 deadlineTicks (ticks ++ [.deadlineC, .deadlineS])
+    (early.σ.c.conn = .handshaking ∧ early.σ.s.conn = .handshaking) ∧
+    (τ.σ.c.conn = .failed ∧ τ.σ.c.alive = false ∧ τ.σ.s.conn = .failed ∧ τ.σ.s.alive = false) := by
+  decide +kernel
 end RtcModel.Theorems.C11
